@@ -208,6 +208,43 @@ pub fn run() {{ let got = format!("{{}}", E::{nm}); let r = String::from({vlib.r
     return mods
 
 
+def wide_cases():
+    """twelve-field structs and variants (beyond the ten one-digit tuple indices: `_10`, `_11` sort before `_2` as text), every
+    field a different value, with literals naming fields on both sides of that boundary; the reference is `format!` of the same
+    literal with the fields bound under their names"""
+    mods = []
+    n = 12
+    vals = [str(100 + 7 * i) for i in range(n)]
+    letters = "abcdefghijkl"
+    for D, a, sp in (("Display", "display", ""), ("LowerHex", "lower_hex", ":x"), ("Debug", "debug", ":?")):
+        for shape in ("tuple_struct", "named_struct", "tuple_variant", "named_variant"):
+            named = shape.startswith("named")
+            nm = (lambda i: letters[i]) if named else (lambda i: f"_{i}")
+            lit = "-".join("{" + nm(i) + sp + "}" for i in (2, 9, 10, 11, 1, 0)) + "|{" + nm(10) + sp + "}"
+            binds = ", ".join(f"{nm(i)} = {vals[i]}i32" for i in range(n) if ("{" + nm(i) + sp + "}") in lit)
+            k = f"wide:{D}:{shape}"
+            fields_t = ", ".join("pub i32" for _ in range(n))
+            fields_n = ", ".join(f"pub {letters[i]}: i32" for i in range(n))
+            if shape == "tuple_struct":
+                decl, ctor = f"#[{a}({vlib.rust_str(lit)})]\npub struct W({fields_t});", "W(" + ", ".join(vals) + ")"
+            elif shape == "named_struct":
+                decl, ctor = f"#[{a}({vlib.rust_str(lit)})]\npub struct W {{ {fields_n} }}", "W { " + ", ".join(f"{letters[i]}: {vals[i]}" for i in range(n)) + " }"
+            elif shape == "tuple_variant":
+                other = "" if D == "Display" else f"#[{a}(\"o\")] "
+                decl, ctor = f"pub enum W {{ #[{a}({vlib.rust_str(lit)})] V({fields_t.replace('pub ', '')}), {other}Other }}", "W::V(" + ", ".join(vals) + ")"
+            else:
+                other = "" if D == "Display" else f"#[{a}(\"o\")] "
+                decl, ctor = (f"pub enum W {{ #[{a}({vlib.rust_str(lit)})] V {{ {fields_n.replace('pub ', '')} }}, {other}Other }}",
+                              "W::V { " + ", ".join(f"{letters[i]}: {vals[i]}" for i in range(n)) + " }")
+            fmt = {"Display": "{}", "LowerHex": "{:x}", "Debug": "{:?}"}[D]
+            mods.append((k, f"""use super::*;
+#[derive(derive_more::{D})]
+{decl}
+pub fn run() {{ let got = format!("{fmt}", {ctor}); let r = format!({vlib.rust_str(lit)}, {binds});
+    report({json.dumps(k)}, got, r.clone(), r); }}"""))
+    return mods
+
+
 def run(chk, tier, seed, replay):
     chk.assumptions += ["every field is a `&'static i32` (implements all nine traits, so any placeholder trait can refer to any field)",
                         "shape (tuple struct / named struct / enum variant), derived trait and placeholder spelling (a fifth with trailing whitespace; width / zero-pad / alternate / fill modifiers) rotate over the cases by hash",
@@ -237,7 +274,7 @@ def run(chk, tier, seed, replay):
         mods = sorted(mods, key=lambda m: vlib.seeded_pick(m[0], seed + 17, 1 << 30))[:cap]
         chk.notes["compiled_cap"] = cap
     if not replay:
-        imp = implicit_cases()
+        imp = implicit_cases() + wide_cases()
         mods += imp
         for k, m in imp:
             decls[k] = m
